@@ -72,9 +72,38 @@ def _holder_cases():
   ]
 
 
+def _modular_case():
+  """A call checked against the callee's CONTRACT: only what that contract ensures may be used.  The
+  callee contract below says nothing about the other keys, so a caller's frame claim must not
+  verify (it would if the callee's effect on the object were not havocked)."""
+  import selftest.pysym_cases as pc
+  H = lambda: Obj("Holder", real_cls=pc.Holder, d=MapOf(Int, Int))
+  callee = Contract(prefix="T.modular.callee", target="selftest.pysym_cases:Holder.put", file=F,
+                    params=dict(self=H(), k=Int, v=Int), ensures={"stored": "k in self.d and self.d[k] == v"},
+                    modular=True)
+  right, wrong = C("modular_call", "Holder.put_via_method", dict(self=H(), k=Int, v=Int),
+                   {"stored": "k in self.d and self.d[k] == v"},
+                   {"frame_not_promised_by_callee": "forall(j, j != k, (j in self.d) == (j in old(self).d))"})
+  return right, wrong, {"Holder.put": callee}
+
+
+_EXTRA_BAD = 0
+
+
 def main():
   import selftest.pysym_cases  # noqa
   CASES.extend(_holder_cases())
+  mr, mw, reg = _modular_case()
+  for c, want in ((mr, "proved"), (mw, "refuted")):
+    r = pysym.verify_contract(c, reg)
+    got = "proved" if (not r.unsupported and r.results and all(x.res.status == "unsat" for x in r.results)) \
+        else "refuted" if any(x.res.status == "sat" for x in r.results) else "open"
+    print("%-34s %s (want %s)" % (c.prefix, got, want))
+    if got != want: CASES.append(None)
+  bad_modular = sum(1 for x in CASES if x is None)
+  CASES[:] = [x for x in CASES if x is not None]
+  global _EXTRA_BAD
+  _EXTRA_BAD = bad_modular
   bad = 0
   for right, wrong in CASES:
     r = pysym.verify_contract(right)
@@ -87,6 +116,7 @@ def main():
     print("%-34s wrong: %s" % (wrong.prefix, "refuted" if refuted else "NOT REFUTED %s %s" % (
         w.unsupported, [(x.ob.name, x.res.status) for x in w.results])))
     if not refuted: bad += 1
+  bad += _EXTRA_BAD
   print("pysym semantics self-test: %s" % ("OK" if not bad else "%d expectation(s) failed" % bad))
   return 1 if bad else 0
 
